@@ -25,6 +25,12 @@ META = {
         "Histories stay within forests (no cycles) and query only existing frames; matrices are kept away from the documented 1e-8/1e-5 numeric shortcuts; numpy linear algebra trusted.",
         "DESIGN.md section 4 C09",
     ),
+    "C04": (
+        "hypothesis generators over geometry kind x matrix class x cached state x entry point; oracle = homogeneous multiply + metamorphic relations (inverse, composition, |det| volume, tensor law)",
+        "Generated search: meshes (solid/open, colours, attributes, metadata, optional centre-of-mass override), point clouds, 2D/3D paths (lines, arcs under similarities), Box/Sphere/Cylinder/Capsule/Extrusion primitives, nested instanced scenes and voxel grids are transformed by matrices of every class (rigid, similarity, mirror, negative uniform scale, anisotropic, shear, general affine, near-identity either side of the 1e-8/1e-6 shortcuts) through apply_transform/apply_scale/apply_translation with derived values read before or not; every point must move to M.p, faces reverse iff det<0, nothing else changes, M then M^-1 restores, A then B equals B.A, and for solids volume/centre of mass/normals/area/inertia follow the stated laws. Exploration only.",
+        "float64 matrix arithmetic trusted; tolerances derived from eps, |M|, |p| and the conditioning of the surface integrals; primitives may reject non-similarities with ValueError but must then be unchanged.",
+        "DESIGN.md section 4 C04",
+    ),
     "C06": (
         "hypothesis generators aimed at bit-packing limits + exhaustive enumeration of short sequences, dict/tuple grouping oracle",
         "Generated search with an independent element-by-element oracle: Hypothesis integer/float row arrays built around the 2^15/2^20/2^31/2^63 packing limits for every column count and dtype, plus complete enumeration of blocks() over all sequences of length<=7 (quick) / <=9 (thorough) on a 3-letter alphabet x every option combination. Does not prove absence; the enumerated sub-domains are complete.",
